@@ -178,10 +178,51 @@ static void run_inflight(void)
 	rcu_unregister_thread();
 }
 
+/* three handles taken while one worker grace period is in flight (held by reader 0); reader 1 starts after the first
+ * handle, so it pre-exists handles 1 and 2 but not handle 0 */
+static void run_three(void)
+{
+	pthread_t r0, r1;
+	struct urcu_gp_poll_state h[3];
+	int i, p, done[3] = { 0, 0, 0 }, ndone = 0;
+
+	rcu_register_thread();
+	pthread_create(&r0, NULL, reader, (void *)0L);
+	vrt_await(ready_pred, (void *)1L);
+	ST(x[0], 1);
+	vrt_note_set(N_START(0), vrt_now() + 1);
+	h[0] = start_poll_synchronize_rcu();
+	pthread_create(&r1, NULL, reader, (void *)1L);
+	vrt_await(ready_pred, (void *)2L);
+	for (p = 1; p < 3; p++) {
+		ST(x[p], 1);
+		vrt_note_set(N_START(p), vrt_now() + 1);
+		h[p] = start_poll_synchronize_rcu();
+	}
+	for (i = 0; ndone < 3; i++) {
+		for (p = 0; p < 3; p++)
+			if (!done[p] && poll_state_synchronize_rcu(h[p])) {
+				done[p] = 1;
+				ndone++;
+				vrt_note_set(N_TRUE(p), vrt_now());
+				ST(y[p], 1);
+			}
+		if (ndone < 3)
+			vrt_yield();	/* a handle that never completes ends as a livelock verdict */
+	}
+	for (p = 0; p < 3; p++)
+		VRT_CHECK(poll_state_synchronize_rcu(h[p]), "three: handle %d reported true and then false", p);
+	pthread_join(r0, NULL);
+	pthread_join(r1, NULL);
+	check("three", 3, 2);
+	rcu_unregister_thread();
+}
+
 struct vrt_scenario vrt_scenarios[] = {
 	{ "one", run_one, "one handle || reader" },
 	{ "two", run_two, "two pollers || reader" },
 	{ "late", run_late, "second handle after the first completed, reader in between" },
 	{ "inflight", run_inflight, "second handle while the first grace period is in flight" },
+	{ "three", run_three, "three handles overlapping one in-flight grace period, second reader in between" },
 	{ NULL, NULL, NULL }
 };
